@@ -348,20 +348,15 @@ impl Sim {
                     format!("transaction {} reached a final outcome ({:?}) but is still in the outstanding table", fmt_tid(&r.tid), r.fin.unwrap().0),
                 ));
             }
-            if snap.timeouts.iter().any(|(t, _, _)| tid_of(t) == r.tid) {
-                out.push(finding(
-                    &["C05", "C11"],
-                    format!("transaction {} reached a final outcome but still has a pending timer entry", fmt_tid(&r.tid)),
-                ));
-            }
+            // a timer entry that outlives its transaction is internal bookkeeping as long as it is never surfaced
+            // (an implementation may purge lazily): what the properties forbid is a notification, packet or event for a
+            // finished transaction, and those are checked on the events themselves
         }
         for t in &awaiting {
+            // an awaiting request without any timer entry can never be retransmitted or time out
             let n = snap.timeouts.iter().filter(|(x, _, _)| tid_of(x) == *t).count();
-            if n != 1 {
-                out.push(finding(
-                    &["C11"],
-                    format!("awaiting transaction {} has {} pending timer entries (expected exactly one)", fmt_tid(t), n),
-                ));
+            if n == 0 {
+                out.push(finding(&["C11"], format!("awaiting transaction {} has no pending timer entry", fmt_tid(t))));
             }
             if !snap.outstanding.iter().any(|(x, _, _)| tid_of(x) == *t) {
                 out.push(finding(&["C05", "C12"], format!("awaiting transaction {} is not in the outstanding table", fmt_tid(t))));
@@ -391,7 +386,7 @@ impl Sim {
         }
     }
 
-    /// C11: notification accuracy against the pending timer entries (hook) and existence against the tracker
+    /// C11: notification existence and accuracy against the tracker's pending deadlines
     fn check_notification(&mut self, events: &[Ev], snap: &VerifSnapshot, out: &mut Vec<Finding>) {
         let notes: Vec<&Ev> = events.iter().filter(|e| matches!(e, Ev::Rto(..))).collect();
         let any_awaiting = !self.awaiting().is_empty();
@@ -411,13 +406,12 @@ impl Sim {
                 None => out.push(finding(&["C11"], format!("timeout notification names unknown transaction {}", fmt_tid(tid)))),
                 _ => {}
             }
-            let min = snap.timeouts.iter().map(|(_, a, d)| ns_of(*a) + d.as_nanos() as u64).min();
+            // pending deadlines are the model's (next unused slot or final deadline of each awaiting request, RFC 8489
+            // schedule from the RTO read at send time); the hook's timer entries are only compared with them under C06
+            let _ = snap;
+            let min = self.awaiting().iter().map(|i| self.reqs[*i].expiry).min();
             if let Some(min) = min {
-                let named = snap
-                    .timeouts
-                    .iter()
-                    .find(|(t, _, _)| tid_of(t) == *tid)
-                    .map(|(_, a, d)| ns_of(*a) + d.as_nanos() as u64);
+                let named = self.req_index(tid).filter(|i| self.reqs[*i].fin.is_none()).map(|i| self.reqs[i].expiry);
                 if named != Some(min) {
                     out.push(finding(
                         &["C11"],
